@@ -16,7 +16,8 @@ struct C09 : RBase {
            "delete, concat, count on a table of integers, a table of strings and a string; set@ / @k / count on a tuple; positions from {-1, 0, 1, n-1, n, n+1, 2^32+1, 2^63-1, null}; "
            "arguments from {matching, decimal into an integer table, typed null of the element type, typed null of the mixable type, untyped null}; operations whose static types "
            "mismatch (string into an integer table, set@ with another type, forall that mutates the traversed table) are separate units that must be rejected at compile time and "
-           "change nothing; forall traversals with mutation attempts through a copy and through a function; fault points in argument position (the receiver is already evaluated when "
+           "change nothing; 30 % of the histories are model-free: put / insert / concat through untyped function parameters, assignments through forall iterators and set@ over nested tables, "
+           "tables of tuples and tuples holding tables, with values of every other shape, checked by the uniformity invariant alone; forall traversals with mutation attempts through a copy and through a function; fault points in argument position (the receiver is already evaluated when "
            "the argument fails); bloc_break. Oracle: vector/tuple reference model operation by operation (printed size and elements, error class INDEX_RANGE / OUT_OF_RANGE / parse "
            "error, final deep store) and, at every statement step, every element carries exactly its table's element type and every tuple its declaration. Non-trivial = an "
            "operation was rejected or failed; distinct = distinct event-trace hash.";
@@ -35,6 +36,36 @@ struct C09 : RBase {
   }
   std::vector<std::vector<json>> extra_units(Rng& r, const json&, GenProgram& p) const override {
     std::vector<std::vector<json>> U; int pid = p.fault_points;
+    if (r.chance(0.3)) {
+      // model-free histories over nested tables and tables of tuples (outside the reference interpreter's subset): every operation runs as its own unit, may be refused by the
+      // compiler, fail at run time or succeed; the oracle is the per-step uniformity invariant (every element has exactly its table's element type, every tuple its declaration)
+      auto raw = [](const std::string& t) { return json{{"k", "rawstmt"}, {"v", t}}; };
+      for (const char* st : {"cn = tab(2, tab(2, 1));", "ct = tab(2, tup(1, \"x\"));", "cd = tab(2, 1.5);", "cq = tab(2, tab(1, tup(1, 2)));", "ci = tab(2, 1);", "cw = tup(1, \"x\", 2.5);",
+                             "function oput(t, p, v) return table is begin t.put(p, v); return t; end;", "function oins(t, p, v) return table is begin t.insert(p, v); return t; end;",
+                             "function ocat(t, v) return table is begin t.concat(v); return t; end;", "function oset(u, v) return tuple is begin u.set@1(v); return u; end;",
+                             "function oset3(u, v) return tuple is begin u.set@3(v); return u; end;"}) U.push_back({raw(st)});
+      static const char* T[] = {"cn", "ct", "cd", "cq", "ci"};
+      static const char* V[] = {"1.5", "2", "null", "\"s\"", "tup(1, \"x\")", "tup(\"a\", 1)", "tup(7, \"x\", true)", "tup(2, \"y\")", "tup(3, 4)", "tab(1, 1)", "tab(1, 1.5)", "tab(1, tab(1, 1))", "int()", "num()", "tab(2, 5)",
+                                "tab(1, tup(3, \"z\"))", "tab(1, tup(\"z\", 3))", "tab(1, tup(5, 6))", "tab(1, tab(1, tup(5, 6)))", "true", "tab()", "tup()", "str()"};
+      static const char* P[] = {"0", "1", "2", "(-1)"};
+      int n = (int)r.range(8, 30);
+      for (int i = 0; i < n; ++i) {
+        std::string t = T[r.below(5)], v = V[r.below(sizeof(V) / sizeof(*V))], pos = P[r.below(4)], st;
+        switch (r.below(12)) {
+        case 0: case 1: st = t + " = oput(" + t + ", " + pos + ", " + v + ");"; break;
+        case 2: case 3: st = t + " = oins(" + t + ", " + pos + ", " + v + ");"; break;
+        case 4: case 5: st = t + " = ocat(" + t + ", " + v + ");"; break;
+        case 6: st = t + "." + std::string(r.chance(0.5) ? "put(" + pos + ", " : r.chance(0.5) ? "insert(" + pos + ", " : "concat(") + v + ");"; break;
+        case 7: case 8: st = "forall e in " + t + " loop e = " + v + "; break; end loop;"; break;
+        case 9: st = "forall rw in " + std::string(r.chance(0.5) ? "cn" : "cq") + " loop forall c in rw loop c = " + v + "; break; end loop; break; end loop;"; break;
+        case 10: st = "cw = " + std::string(r.chance(0.5) ? "oset(cw, " : "oset3(cw, ") + v + ");"; break;
+        default: st = "forall rw in " + std::string(r.chance(0.5) ? "cn" : "cq") + " loop rw = " + v + "; break; end loop;"; break;
+        }
+        U.push_back({raw(st)});
+      }
+      U.push_back({raw("print cn.count() ct.count() cd.count() cq.count() ci.count() cw.count();")});
+      return U;
+    }
     const long long HUGE1 = 4294967297LL, HUGE2 = 9223372036854775807LL;
     bool null_position = false;
     auto position = [&](const char* tn, const char* tt) -> json {
